@@ -25,7 +25,8 @@ CFG = dict(
          "blocked write) of the old connection, twice; the context cancelled at EVERY step of each of these (quick: a third of the positions "
          "of the long ones); transports that ignore their context; faults and cancellation in ONE step (also cancelling from inside the "
          "forwarding loop), repeated, judged by the predicates alone; a peer dialled on demand whose connection then fails (read / write / blocked write / dial error) and is dialled again, with the "
-         "context cancelled at every step; seeded random walks with faults; free-running stress with forged sources; the rig runs as 8 shard processes",
+         "context cancelled at every step; seeded random walks with faults; free-running stress with forged sources; AddClient and live traffic during a slow dial; the rig runs as 8 shard processes; a scenario in which the proxy holds a mutex across a "
+         "blocking call (synctest.Wait cannot return) is reported as wedged by a real-time watcher (exit 3 = failing input) and the run resumes",
     assumptions=["payloads are opaque to the proxy (tokens)",
                  "peer transports honour their context in Read and in a blocked Write (the shutdown clause; transports that do not are exercised too and then only the model comparison applies); the newConnection callback returns",
                  "quiescence = testing/synctest's durable blocking; goroutine roles are read from runtime.Stack frames"],
